@@ -308,6 +308,16 @@ static inline void run_seq(const std::vector<std::string> &w, out &o)
 
 template <class R, class... A> static size_t ret_size_of(R (*)(A...)) { return sizeof(R); }
 
+// Round 3b (fragility sweep).  COMPARED with the model: only the widths that the public signatures fix - return
+// type of gstuffing_v / gstuffing (int), size_t, iov_len, return type and `size` parameter of gstuffing_v1.
+// NOT fixed by the property (a harmless change may widen the sline counters, add a member to gstuff_context,
+// rename or retype the legacy crc/state members): widths of sline::cap/len/cursor, sizeof(gstuff_context),
+// legacy crc/state - read when the members exist under these names (`requires`), reported as a TAG.  Oracle:
+// a counter of the receive line that is narrower than the `int` capacity parameter of init()/setbuf_v1()
+// cannot hold "every receive buffer size" (the behavioural probes for that are the `long` ops at 65535..65537).
+template <class S> static size_t w_cap(S &s) { if constexpr (requires { s.cap; }) return sizeof(s.cap); else return 0; }
+template <class S> static size_t w_len(S &s) { if constexpr (requires { s.len; }) return sizeof(s.len); else return 0; }
+template <class S> static size_t w_cursor(S &s) { if constexpr (requires { s.cursor; }) return sizeof(s.cursor); else return 0; }
 static inline void run_sizes(out &o)
 {
     size_t l[4];
@@ -316,12 +326,17 @@ static inline void run_sizes(out &o)
     int (*enc_1)(const char *, size_t, char *, const gstuff_context &) = &gstuffing;
     struct iovec iv;
     struct sline sl;
-    size_t v[] = {ret_size_of(enc_v), sizeof(size_t), sizeof(iv.iov_len), sizeof(sl.cap), sizeof(sl.len), sizeof(sl.cursor),
-                  sizeof(gstuff_context), l[0], l[1], l[2], l[3]};
+    size_t v[] = {ret_size_of(enc_v), sizeof(size_t), sizeof(iv.iov_len), l[0], l[1]};
     if (ret_size_of(enc_1) != ret_size_of(enc_v)) o.fail("gstuffing and gstuffing_v return different types");
     std::string s;
     for (size_t i = 0; i < sizeof v / sizeof v[0]; i++) s += (i ? " " : "") + std::to_string(v[i]);
     o.result = s;
+    size_t wc = w_cap(sl), wl = w_len(sl), wu = w_cursor(sl);
+    for (size_t x : {wc, wl, wu})
+        if (x != 0 && x < sizeof(int)) o.fail("a counter of struct sline is narrower than the int capacity of init()/setbuf_v1()");
+    o.tag(("sline-counters=" + std::to_string(wc) + "/" + std::to_string(wl) + "/" + std::to_string(wu)).c_str());
+    o.tag(("sizeof-context=" + std::to_string(sizeof(gstuff_context))).c_str());
+    o.tag(("legacy-crc-state=" + std::to_string(l[2]) + "/" + std::to_string(l[3])).c_str());
 }
 
 static inline uint32_t fnv(const uint8_t *p, size_t n)
